@@ -73,6 +73,11 @@ def snapshot(v, memo=None):
         memo[id(v)] = c
         c.items = {k: snapshot(x, memo) for k, x in v.items.items()}
         return c
+    if isinstance(v, Opaque) and any(hasattr(x, "snapshot") for x in v.attrs.values()):
+        c = Opaque(v.kind, v.name)
+        memo[id(v)] = c
+        c.attrs = {k: snapshot(x, memo) for k, x in v.attrs.items()}
+        return c
     if hasattr(v, "snapshot"):
         c = v.snapshot(memo)
         memo[id(v)] = c
@@ -224,6 +229,7 @@ class Verifier(object):
         fr.fullname = qualname
         m.frames.append(fr)
         env = self.make_args(m, c, node, module, case)
+        fr.env = env
         fr.entry_env = Env(module=module)
         memo = {}
         fr.entry_env.vars = {k: snapshot(v, memo) for k, v in env.vars.items()}
@@ -315,7 +321,9 @@ class Verifier(object):
             index.append((ob, k))
         rjobs = []
         for k, ob in enumerate(reach):
-            rjobs.append((("reach", k), smt.to_smt2(ob.hyps, ob.goal, want_axioms=False, use_theories=False), 5000, False))
+            from .core import _has_quantifier
+            rjobs.append((("reach", k), smt.to_smt2([h for h in ob.hyps if not _has_quantifier(h)], ob.goal,
+                                                    want_axioms=False, use_theories=False), 5000, False))
         res = smt.discharge(jobs + rjobs, workers=self.workers)
         clauses = {}
         for ob, k in index:
